@@ -37,7 +37,7 @@ def suite(cwd):
 
 
 def demo(cwd):
-    rc, out = sh("cargo test --offline --test demo 2>&1 | tail -15", cwd=cwd)
+    rc, out = sh("cargo test --offline %s --test demo 2>&1 | tail -15" % os.environ.get("SEED_DEMO_FLAGS", ""), cwd=cwd)
     passed = rc == 0 and "test result: ok" in out
     return passed, out.strip()
 
